@@ -261,3 +261,31 @@ def bitstr_of_list(bits):
 
 def exc_name(e):
     return type(e).__name__
+
+
+def tlc_map(module, records, workdir, timeout=900, shards=8):
+    """G on demand: run a utility spec (spec/mc/<module>) that reads IN_FILE (ndjson, each record has 'id') and writes
+    OUT_FILE (ndjson).  Returns dict id -> output record."""
+    os.makedirs(workdir, exist_ok=True)
+    parts = [records[k::shards] for k in range(shards)]
+    parts = [p for p in parts if p]
+
+    def one(k, part):
+        inf = os.path.join(workdir, f'in{k}.ndjson')
+        outf = os.path.join(workdir, f'out{k}.ndjson')
+        with open(inf, 'w') as f:
+            for r in part:
+                f.write(json.dumps(r, separators=(',', ':')) + '\n')
+        r = tlc(os.path.join(SPEC, 'mc', module), 'INIT Init\nNEXT Next\nCHECK_DEADLOCK FALSE\n', os.path.join(workdir, f'm{k}'),
+                env={'IN_FILE': inf, 'OUT_FILE': outf}, workers=1, timeout=timeout, heap='3g')
+        if not tlc_ok(r) or not os.path.exists(outf):
+            o = r['out']
+            k0 = o.find('Error:')
+            raise MachineryError(f'tlc_map {module} failed:\n{o[k0:k0 + 2500] if k0 >= 0 else o[-2500:]}')
+        return [json.loads(line) for line in open(outf) if line.strip()]
+    res = {}
+    with ThreadPoolExecutor(max_workers=NCPU) as ex:
+        for outs in ex.map(lambda a: one(*a), enumerate(parts)):
+            for o in outs:
+                res[o['id']] = o
+    return res
